@@ -462,7 +462,8 @@ def sched_key(sc):
 def gen_schedules(drv, tier, rng, stats):
     depth2 = 16    # the 2-contender graphs close at depth 14: this is the whole reachable graph
     configs = []   # (n, dead, model lock, real lock variants, maxcrash)
-    for mc in (0, 1, 2):
+    # crash budget 2 contains the smaller ones as subgraphs; 0 and 1 only add alternative paths to the same transitions
+    for mc in ((0, 2) if tier == "quick" else (0, 1, 2)):
         configs.append((2, [], "absent", ["absent"], mc))
         configs.append((2, [], "blank", ["empty", "garbage"], mc))
         configs.append((3, [2], "pid2", ["pid2"], mc))
@@ -608,6 +609,113 @@ def run_all(out, binary, drv, todo, errf, workers):
     return counters, results
 
 
+# ------------------------------------------------------------------ CLI fallback (weaker tie)
+def cli_tie(out, tier):
+    """Only used when the step-controlled harness is unavailable.  Real `grog build` processes on one
+    workspace, one slow uncached target that logs when it starts and ends: the logged intervals must
+    not overlap; a lock file naming a reaped PID / garbage must not block; a build killed while it
+    holds the lock must not block the next one.  Free-running processes: the narrow windows of W1/W2
+    are not hit, so this can only show gross failures."""
+    try:
+        grog = vlib.build_grog()
+    except vlib.HarnessUnavailable as e:
+        out.notes.append("cli_tie: unavailable (%s)" % str(e)[-300:])
+        return {"available": False}
+    ws = os.path.join(vlib.scratch(), "c10ws")
+    root = os.path.join(vlib.scratch(), "c10root")
+    os.makedirs(ws, exist_ok=True)
+    os.makedirs(root, exist_ok=True)
+    logf = os.path.join(vlib.scratch(), "c10-intervals.log")
+    open(os.path.join(ws, "grog.toml"), "w").write("")
+    cmd = "echo start $$ $(date +%%s%%N) >> %s; sleep 0.4; echo end $$ $(date +%%s%%N) >> %s" % (logf, logf)
+    with open(os.path.join(ws, "BUILD.json"), "w") as f:
+        json.dump({"targets": [{"name": "slow", "command": cmd, "tags": ["no-cache"]}]}, f)
+    env = dict(os.environ, GROG_ROOT=root, HOME=vlib.scratch(), NO_COLOR="1")
+    procs = []
+
+    def build():
+        p = subprocess.Popen([grog, "build", "//:slow"], cwd=ws, env=env, stdin=subprocess.DEVNULL,
+                             stdout=subprocess.PIPE, stderr=subprocess.STDOUT)
+        procs.append(p)
+        return p
+
+    def intervals():
+        iv, open_ = [], {}
+        if os.path.exists(logf):
+            for l in open(logf):
+                k, pid, t = l.split()
+                if k == "start":
+                    open_[pid] = int(t)
+                elif pid in open_:
+                    iv.append((open_.pop(pid), int(t)))
+        return sorted(iv)
+
+    res = {"available": True, "rounds": 0, "builds": 0, "overlaps": 0, "stale_blocked": 0}
+    try:
+        rounds = 2 if tier == "quick" else 8
+        for _ in range(rounds):
+            ps = [build() for _ in range(3)]
+            for p in ps:
+                try:
+                    p.wait(timeout=60)
+                except subprocess.TimeoutExpired:
+                    p.kill()
+                    p.wait()
+                    out.violation("grog build did not finish within 60 s while two other builds of the same workspace ran",
+                                  {"cmd": "3 x grog build //:slow in one workspace", "target_command": cmd})
+            res["rounds"] += 1
+            res["builds"] += 3
+        iv = intervals()
+        for (a0, a1), (b0, b1) in zip(iv, iv[1:]):
+            if b0 < a1:
+                res["overlaps"] += 1
+        if res["overlaps"]:
+            out.violation("two grog builds of one workspace executed the same target at the same time (%d overlapping intervals of %d)" % (
+                res["overlaps"], len(iv)), {"cmd": "3 x grog build //:slow in one workspace, %d rounds" % rounds, "intervals_ns": iv})
+        res["intervals"] = len(iv)
+        # stale files
+        lockdirs = [os.path.join(root, d) for d in os.listdir(root) if os.path.isdir(os.path.join(root, d))]
+        for content in (b"%d" % reaped_pid(), b"garbage", b""):
+            for d in lockdirs:
+                with open(os.path.join(d, "lockfile"), "wb") as f:
+                    f.write(content)
+            p = build()
+            try:
+                p.wait(timeout=30)
+            except subprocess.TimeoutExpired:
+                p.kill()
+                p.wait()
+                res["stale_blocked"] += 1
+                out.violation("a lock file containing %r (no live process) blocks grog build for more than 30 s" % content,
+                              {"lock_file_content": content.decode(), "cmd": "grog build //:slow"})
+            res["builds"] += 1
+        # a build killed while holding the lock
+        p = build()
+        deadline = time.time() + 20
+        n0 = len(open(logf).read().split("\n"))
+        while time.time() < deadline and len(open(logf).read().split("\n")) == n0:
+            time.sleep(0.02)
+        p.kill()
+        p.wait()
+        q = build()
+        try:
+            q.wait(timeout=30)
+            res["after_kill_exit"] = q.returncode
+        except subprocess.TimeoutExpired:
+            q.kill()
+            q.wait()
+            res["stale_blocked"] += 1
+            out.violation("grog build blocks for more than 30 s after the previous build was killed while holding the lock",
+                          {"cmd": "grog build //:slow; kill -9; grog build //:slow"})
+        res["builds"] += 2
+    finally:
+        for p in procs:
+            if p.poll() is None:
+                p.kill()
+                p.wait()
+    return res
+
+
 def run(out, tier):
     rng = vlib.Rng(vlib.seed())
     drv = vlib.build_driver("lock")
@@ -625,8 +733,13 @@ def run(out, tier):
         binary, info = build_contender()
     except vlib.HarnessUnavailable as e:
         out.notes.append("inprocess_tie: unavailable (%s)" % str(e)[-600:])
-        out.cov.update({"evaluations": 0, "distinct_nontrivial": 0, "traces_validated_against_impl": 0, "inprocess_tie": False,
-                        "rule": "harness unavailable; model explorer only", "samples": [{"schedule": W1}], **stats})
+        cli = cli_tie(out, tier)
+        out.cov.update({"evaluations": cli.get("builds", 0), "distinct_nontrivial": 0, "traces_validated_against_impl": 0,
+                        "inprocess_tie": False, "cli_tie": cli,
+                        "rule": "step-controlled harness unavailable; fallback: free-running grog build processes on one workspace "
+                                "(execution intervals must not overlap, stale lock files must not block); nothing distinct is counted",
+                        "samples": [{"fallback": cli}], "states": stats.get("explorer_states", 0),
+                        "transitions": stats.get("explorer_transitions", 0)})
         return
     errp = os.path.join(vlib.scratch(), "contenders.err")
     with open(errp, "ab") as errf:
